@@ -119,7 +119,12 @@ impl Fields {
     }
 
     pub(crate) fn index(&mut self) -> io::Result<()> {
-        index(&self.site_buf, &mut self.bounds)
+        index(&self.site_buf, &mut self.bounds)?;
+
+        // IDs are returned as string slices.
+        std::str::from_utf8(&self.site_buf[self.bounds.ids_range()])
+            .map(|_| ())
+            .map_err(|e| io::Error::new(io::ErrorKind::InvalidData, e))
     }
 }
 
